@@ -436,6 +436,10 @@ func (e *Enc) assertInvariants(li *loopInfo, from *ssa.BasicBlock, edgeCond Term
 		for j, inv := range li.lc.Invariants {
 			t, err := ctx.EvalBool(inv.E)
 			if err != nil {
+				if strings.Contains(err.Error(), "unknown identifier") {
+					e.note(fmt.Sprintf("loop %d invariant #%d dropped (not assumed, not asserted): %v", li.ordinal, j+1, err))
+					continue
+				}
 				e.fatal("loop %d invariant: %v", li.ordinal, err)
 			}
 			e.assertOb(fmt.Sprintf("loop%d/%s#%d", li.ordinal, kind, j+1), t, "invariant "+inv.Src, token.NoPos)
@@ -453,6 +457,9 @@ func (e *Enc) assumeInvariants(li *loopInfo) {
 		for _, inv := range li.lc.Invariants {
 			t, err := ctx.EvalBool(inv.E)
 			if err != nil {
+				if strings.Contains(err.Error(), "unknown identifier") {
+					continue
+				}
 				e.fatal("loop %d invariant: %v", li.ordinal, err)
 			}
 			e.assume(t, "invariant "+inv.Src)
